@@ -57,7 +57,8 @@ OwnMinV(node) ==
     [] k \in {"GGet", "GPut", "GDel"} -> 2
     [] k = "Log" -> 5
     [] k = "WideRatio" -> 5
-    [] k \in {"Call", "Ref", "PRef", "PLoad", "PStore"} -> 4
+    [] k = "Call" -> 4
+    [] k \in {"Ref", "PRef", "PLoad", "PStore"} -> 5        \* by-reference parameters are accessed with loads / stores (version 5)
     [] OTHER -> Never
 
 RECURSIVE MinV(_), MinVSeq(_, _)
